@@ -311,6 +311,263 @@ def apply_twice(base, typ, ydoc, model=None):
     return t0, trees, snaps, text
 
 
+# ------------------------------------------------------------------ (a') entries that have to wait, in every position
+# level of the list under test -> the ways one of its entries can have to wait for a promise
+PM_KINDS = {
+    "props": ["set", "find"],                                   # owned_properties of a class (nested sync)
+    "classes": ["find", "set-link", "nested-set", "nested-find", "nested-extend"],      # classes of a package
+    "packages": ["nested2-set", "nested2-find"],                # packages of a package; the waiting value is two levels down
+}
+PM_DECLS = ["later-instruction", "later-enclosing-list", "earlier-instruction"]
+PM_LP = [(L, p) for L in (1, 2, 3, 4) for p in range(L)]
+
+
+def pm_combos():
+    for level, kinds in PM_KINDS.items():
+        for kind in kinds:
+            for L, p in PM_LP:
+                for decl_at in PM_DECLS:
+                    for wait_exists in (False, True):
+                        yield level, kind, L, p, decl_at, wait_exists
+
+
+def pm_find_el(model, uuid):
+    for tr in model._loader.trees.values():
+        for el in tr.root.iter():
+            if isinstance(el.tag, str) and el.get("id") == uuid:
+                return el
+    raise LookupError(uuid)
+
+
+def pm_count(el, path):
+    """elements reached from `el` by a path of `name` attribute values (raw lxml; children of any tag)"""
+    els = [el]
+    for name in path:
+        els = [c for e in els for c in e if isinstance(c.tag, str) and c.get("name") == name]
+    return els
+
+
+def pm_canon(el, base_ids):
+    """serialised subtree with every id that is not in the base model replaced by its order of first appearance"""
+    import re
+    from lxml import etree
+    text = etree.tostring(el).decode("utf-8")
+    new = []
+    for i in re.findall(r'\bid="([^"]+)"', text):
+        if i not in base_ids and i not in new:
+            new.append(i)
+    for n, i in enumerate(new):
+        text = text.replace(i, "NEW%d" % n)
+    return text
+
+
+def pm_case(rng, model, base, idx, level, kind, L, p, decl_at, wait_exists, stats):
+    """One document: a sync list of length L whose entry p has to wait for a promise (declared where `decl_at` says);
+    the other entries match an object that exists or describe a new one.  Everything lives in a fresh package, so many
+    documents can use one loaded model.  Returns (yaml document, expectation, sandbox uuid); the expectation is a list of
+    (path of names below the sandbox, 'sync' | 'extend', must refer to the promised object)."""
+    from capellambse import decl
+    root = model.by_uuid(base.roots["PK"])
+    sandbox = root.packages.create(name="pm%d" % idx)
+    pre = rng.choice(["", "", rng.choice(NASTY[:40]) + " "])
+    nm = lambda i: "%se%d" % (pre, i)           # noqa: E731
+    tname, kname = pre + "T", pre + "K"
+    prom = decl.Promise("pT%d" % idx)
+    # an existing object can only match a find key on a reference if the promised object exists as well
+    t_exists = rng.random() < 0.4 or (kind == "find" and wait_exists)
+    t_in_tp = level == "packages" and decl_at == "later-enclosing-list"     # declared below a package entry of the list
+    tobj = None
+    if t_exists:
+        tobj = (sandbox.packages.create(name=pre + "TP") if t_in_tp else sandbox).classes.create(name=tname)
+    stats["promised_object_" + ("exists" if t_exists else "new")] += 1
+    modes = [rng.choice(["match", "create", "create+set"]) for _ in range(L)]
+    modes[p] = "wait-existing" if wait_exists else "wait-new"
+    extra_wait = None
+    if L > 1 and rng.random() < 0.25:             # now and then a second entry of the list waits as well
+        extra_wait = rng.choice([i for i in range(L) if i != p])
+        modes[extra_wait] = "wait-new"
+        stats["two_waiting_entries"] += 1
+    container = sandbox                              # the object that owns the list under test
+    k_exists = True
+    if level == "props":
+        k_exists = wait_exists or rng.random() < 0.6
+        if k_exists:
+            container = sandbox.classes.create(name=kname)
+        else:
+            modes = [m if m.startswith("wait") else m.replace("match", "create") for m in modes]
+    attr = {"props": "owned_properties", "classes": "classes", "packages": "packages"}[level]
+    expect, entries = [], []
+    prefix = [kname] if level == "props" else []
+
+    def waiting_entry(i, exists):
+        e = {"find": {"name": nm(i)}}
+        obj = getattr(container, attr).create(name=nm(i)) if exists else None
+        ref_path = prefix + [nm(i)]
+        if kind == "set":
+            e["set"] = {"type": prom}
+        elif kind == "find":
+            e["find"]["super" if level == "classes" else "type"] = prom
+            if obj is not None:
+                setattr(obj, "super" if level == "classes" else "type", tobj)
+        elif kind == "set-link":
+            e["set"] = {"super": prom}
+        elif kind in ("nested-set", "nested-find"):
+            sub = {"find": {"name": "q"}}
+            if kind == "nested-set":
+                sub["set"] = {"type": prom}
+            else:
+                sub["find"]["type"] = prom
+            e["sync"] = {"owned_properties": [{"find": {"name": "q0"}}, sub, {"find": {"name": "q2"}}]}
+            expect.extend((prefix + [nm(i), q], "sync", False) for q in ("q0", "q2"))
+            ref_path = prefix + [nm(i), "q"]
+        elif kind == "nested-extend":
+            e["extend"] = {"owned_properties": [{"name": "q", "type": prom}]}
+            expect.append((prefix + [nm(i), "q"], "extend", True))
+            ref_path = None
+        elif kind in ("nested2-set", "nested2-find"):
+            sub = {"find": {"name": "q"}}
+            if kind == "nested2-set":
+                sub["set"] = {"type": prom}
+            else:
+                sub["find"]["type"] = prom
+            e["sync"] = {"classes": [{"find": {"name": "k"}, "sync": {"owned_properties": [sub, {"find": {"name": "q2"}}]}},
+                                     {"find": {"name": "k2"}}]}
+            expect.extend((prefix + [nm(i)] + x, "sync", False) for x in (["k"], ["k", "q2"], ["k2"]))
+            ref_path = prefix + [nm(i), "k", "q"]
+        else:
+            raise AssertionError(kind)
+        expect.append((prefix + [nm(i)], "sync", False))
+        if ref_path is not None:
+            expect.append((ref_path, "sync", True))
+        return e
+
+    for i, mode in enumerate(modes):
+        if mode.startswith("wait"):
+            entries.append(waiting_entry(i, mode == "wait-existing"))
+            continue
+        e = {"find": {"name": nm(i)}}
+        if mode == "match":
+            getattr(container, attr).create(name=nm(i))
+        if mode == "create+set":
+            e["set"] = {"summary": "s%d" % i}
+        if rng.random() < 0.2:
+            e["find"]["_type"] = TYPEHINT[{"props": "PR", "classes": "K", "packages": "PK"}[level]]
+        expect.append((prefix + [nm(i)], "sync", False))
+        stats["other_entry_" + mode] += 1
+        entries.append(e)
+    t_entry = {"find": {"name": tname}, "promise_id": prom.identifier}
+    t_path = [tname]
+    parent = decl.UUIDReference(sandbox.uuid)
+    t_ins = {"parent": parent, "sync": {"classes": [t_entry]}}
+    if level == "props":
+        klist = [{"find": {"name": kname}, "sync": {attr: entries}}]
+        if decl_at == "later-enclosing-list":
+            klist.append(t_entry)
+        main = {"parent": parent, "sync": {"classes": klist}}
+        expect.append(([kname], "sync", False))
+    elif level == "classes":
+        if decl_at == "later-enclosing-list":
+            entries.append(t_entry)                 # the promise is declared by a later entry of the list under test itself
+        main = {"parent": parent, "sync": {"classes": entries}}
+    else:
+        if decl_at == "later-enclosing-list":
+            entries.append({"find": {"name": pre + "TP"}, "sync": {"classes": [t_entry]}})
+            t_path = [pre + "TP", tname]
+            expect.append(([pre + "TP"], "sync", False))
+        main = {"parent": parent, "sync": {"packages": entries}}
+    doc = [main]
+    if decl_at == "later-instruction":
+        doc = [main, t_ins]
+    elif decl_at == "earlier-instruction":
+        doc = [t_ins, main]
+    expect.append((t_path, "sync", False))
+    return doc, expect, sandbox.uuid, t_path
+
+
+def promise_matrix(chk, bases, quick):
+    """Sync lists of every length 1..4 in which each position in turn holds an entry that has to wait for a promise
+    declared later (in a `set` value, in a find key, in nested sync / extend), mixed with entries that match existing
+    objects and entries that create.  Oracle (raw XML): after run 1 every entry's object exists exactly once and the
+    waiting one refers to the promised object; run 2 raises nothing, leaves the XML below the sandbox byte-identical
+    and the number of elements of every tree unchanged (documents with `extend`: every sync entry's object still
+    exists exactly once)."""
+    import yaml
+    from lxml import etree
+    from capellambse import decl
+    rng = chk.rng
+    stats = {"documents": 0, "first_run_errors": 0, "promised_object_exists": 0, "promised_object_new": 0,
+             "two_waiting_entries": 0, "other_entry_match": 0, "other_entry_create": 0, "other_entry_create+set": 0,
+             "by_level_kind": {}, "by_length_position": {}, "by_declaration": {}, "per_model": {}}
+    combos = list(pm_combos())
+    for tag, base in bases.items():
+        if quick and tag != "empty52":
+            todo = rng.sample(combos, 270)
+        else:
+            todo = combos
+        model = base.load()
+        stats["per_model"][tag] = len(todo)
+        for idx, (level, kind, L, p, decl_at, wait_exists) in enumerate(todo):
+            doc, expect, sb_uuid, t_path = pm_case(rng, model, base, idx, level, kind, L, p, decl_at, wait_exists, stats)
+            text = yaml.dump(doc, Dumper=decl.YDMDumper, sort_keys=False)
+            stats["documents"] += 1
+            for k, v in (("by_level_kind", f"{level}/{kind}"), ("by_length_position", f"L{L}p{p}"), ("by_declaration", decl_at)):
+                stats[k][v] = stats[k].get(v, 0) + 1
+            cfg = f"{level}:{kind}:L{L}:p{p}:{decl_at}:{'existing' if wait_exists else 'new'}"
+            chk.note_case(("promise-matrix", tag, cfg, text), nontrivial=True)
+            replay = {"model": tag, "yaml": text, "list_under_test": level, "waiting_kind": kind, "length": L, "waiting_position": p,
+                      "promise_declared": decl_at, "waiting_entry_object": "exists" if wait_exists else "new",
+                      "note": "apply twice to the model after creating a package below la.data_package and the objects the entries match"}
+            sb = pm_find_el(model, sb_uuid)
+            has_extend = kind == "nested-extend"
+            snaps, bad = [], None
+            for run_no in (1, 2):
+                try:
+                    decl.apply(model, io.StringIO(text))
+                except BaseException as e:  # noqa: BLE001
+                    if isinstance(e, (KeyboardInterrupt, SystemExit)):
+                        raise
+                    if run_no == 1:
+                        stats["first_run_errors"] += 1
+                        bad = ("first-run-fails", f"the first application raises {e!r:.160}")
+                    else:
+                        bad = ("second-run-fails", f"the second application raises {e!r:.160}")
+                    break
+                # ---- every entry's object exists exactly once (extend children: once per run, by definition)
+                t_els = pm_count(sb, t_path)
+                problems = []
+                for path, how, refers in sorted(set((tuple(a), b, c) for a, b, c in expect)):
+                    els = pm_count(sb, path)
+                    want = run_no if how == "extend" else 1
+                    if len(els) != want:
+                        problems.append(f"{'/'.join(path)}: {len(els)} object(s), expected {want}")
+                    elif refers and len(t_els) == 1:
+                        tid = t_els[0].get("id")
+                        for el in els:
+                            if not any(tid in v for x in el.iter() if isinstance(x.tag, str) for v in x.attrib.values()):
+                                problems.append(f"{'/'.join(path)}: does not refer to the promised object {tid}")
+                problems = list(dict.fromkeys(problems))
+                if problems:
+                    bad = (f"run{run_no}-objects", f"after run {run_no}: " + "; ".join(problems[:6]))
+                    break
+                snaps.append((etree.tostring(sb), [sum(1 for _ in tr.root.iter()) for _, tr in
+                                                   sorted(model._loader.trees.items(), key=lambda kv: str(kv[0]))]))
+            if bad is None and not has_extend and snaps[0] != snaps[1]:
+                if snaps[0][1] == snaps[1][1] and pm_canon(sb, base.ids) == pm_canon(etree.fromstring(snaps[0][0]), base.ids):
+                    if kind == "set-link":
+                        chk.violation("sync-set-link-recreates-element",
+                                      "re-applying `set` on a link-valued attribute deletes and re-creates the link element with a fresh UUID",
+                                      replay)
+                        continue
+                    bad = ("second-run-new-uuids", "the second application re-creates elements (same content, fresh UUIDs)")
+                else:
+                    bad = ("second-run-differs", f"the second application changes the model (elements per tree {snaps[0][1]} -> {snaps[1][1]})")
+            if bad is not None:
+                chk.violation(f"sync-waiting-entry:{bad[0]}:{tag}:{cfg}",
+                              f"sync list of {L} entries below a {level} parent whose entry {p} has to wait for a promise ({kind}; declared "
+                              f"{decl_at}; the entry's object is {'there' if wait_exists else 'new'}): {bad[1]}", replay)
+    chk.coverage["sync_waiting_entry_matrix"] = stats
+
+
 def run(chk: lib.Check):
     logging.disable(logging.CRITICAL)
     import yaml
@@ -495,6 +752,7 @@ def run(chk: lib.Check):
                                  "is not idempotent", setup=setup)
                     o_stats["find_value_matrix"] += 1
     chk.coverage["sync_oracle_streams"] = o_stats
+    promise_matrix(chk, bases, quick)
 
     # ================================================================== (b)
     UUCH = "abcdefABCDEF0123456789-_"
